@@ -158,6 +158,20 @@ for pid, what in PY_TIE.items():
                   "(an untranslatable source makes the obligation trivial and is recorded as t_tie: unavailable). The translator is validated on every run: the original Python statements (CPython, "
                   "inside the real module) and the generated definitions (at Float) are executed on the same inputs (harness/pyvalidate.py).")
     c["technique"] += " + source-to-Lean translator (py2lean) with equality theorems"
+# whole array functions regenerated from the Python source on every run (tools/py2lean_vec.py) and proved equal to the model
+PYVEC_TIE = {
+ "C05": "_nanmean_weighted and _nanstd_weighted (with _distribution_factory and the two dicts of lambdas inlined)",
+ "C06": "_nanmean_weighted and _nanstd_weighted (the statistics the rejection bounds and the stopping rule are computed from)",
+ "C11": "_nanmean_weighted and _nanstd_weighted (both denominators: nist and cheng)",
+}
+for pid, what in PYVEC_TIE.items():
+    c = CLAIMED[pid]
+    c["text"] += (" Array-level source translator: tools/py2lean_vec.py symbolically executes the whole functions " + what + " (arrays as List (Option Real), NaN = none; helper calls inlined) "
+                  "into Generated/PyVec.lean on every run; Bridge/PyVec.lean proves, for every distribution name, every array and every weights argument, that the translation raises exactly for unknown "
+                  "names and otherwise equals the model's nanmeanW/nanstdW (cheng denominator: whenever the weighted mean is defined). The real functions and the translation (at Float) are executed on "
+                  "the same arrays on every run.")
+    if "py2lean_vec" not in c["technique"]:
+        c["technique"] += " + array-level source translator (py2lean_vec) with equality theorems"
 CLAIMED["C04"]["note"] = ("Trusted: np.percentile ('linear' method, modelled by its contract: monotone in p and bounded by min/max are proved for the model, "
                           "Props/C04.lean percentile_mono/percentile_bounds, and tested on the implementation); rotation invariance and 180-degree periodicity are composed through the whole chain (Props/C04Rot.lean).")
 CLAIMED["C06"]["note"] = ("Trusted: float rounding at zero guards / convergence limits / bounds (such runs are detected from the implementation's own trace, skipped and counted). Order independence "
@@ -195,7 +209,7 @@ manifest = dict(
                baseline_off_cmd="cd /repo && /venv/bin/python -m pytest -ra -q -p no:cacheprovider --timeout=900 --continue-on-collection-errors",
                source_commits=[], add_only=True),
     engines=[dict(name="lean4+correspondence", path="lean/ harness/ tools/", serves_properties=sorted(CLAIMED),
-                  kind_free_text="Lean 4 model + theorems (lake), native drivers, Python differential harness, ast table extractor, source-to-Lean translator (tools/py2lean.py)")],
+                  kind_free_text="Lean 4 model + theorems (lake), native drivers, Python differential harness, ast table extractor, source-to-Lean translators (tools/py2lean.py scalar kernels, tools/py2lean_vec.py array functions)")],
     checks=checks,
     notes="See DESIGN.md. Exit code 2 = infrastructure failure/timeouts, never a violation.",
     not_applicable=[dict(property_id=p, reason=PENDING_REASON) for p in ids if p not in CLAIMED],
